@@ -353,6 +353,10 @@ let handle (line : string) : string =
                       M.e_funs = List.map (function L [A "fn"; a; b; f] -> (qname_of a b, ufun_of_sx f) | _ -> failwith "fn") funs;
                       M.e_asis = false } in
            show_res (M.exec en e))
+  | L [A "render"; e] ->
+      (match M.canonical_text (expr_of_sx e) with
+       | None -> "E not-canonical"
+       | Some s -> "S " ^ show_str s)
   | L [A "sv"; id; p] -> "S " ^ show_str (M.string_value (Hashtbl.find docs (int_of_sx id)) (path_of_sx p))
   | L [A "tostr"; A h] -> "S " ^ show_str (M.num_to_str (M.f_of_bits (z_of_hex h)))
   | L [A "tonum"; v] -> "N " ^ show_num (M.str_to_num (str_of_sx v))
